@@ -6,6 +6,8 @@ CONSTANTS
   EPs = {"e22", "e23"}
   Dirs = {"out", "in"}
   Tpts = {"tcp"}
+  Pres = {"none"}
+  Opts = {"plain"}
   Faults = {"fail", "crash"}
   Exclusive = FALSE
   Match <- MCMatch
@@ -14,5 +16,5 @@ CONSTANTS
 INIT Init
 NEXT Next
 VIEW View
-INVARIANTS TypeOK DurableDisk Durable NoSpurious MemDiskAgree
-PROPERTIES WriteBeforeMem NeverAdmitted DialRefusedEarly ClosedAtAccept ClosedAfterHandshake NotOverBlocking
+INVARIANTS TypeOK DurableDisk Durable NoSpurious MemDiskAgree PathsGated
+PROPERTIES WriteBeforeMem NeverAdmitted DialRefusedEarly NoNewConnOnceBlocked ClosedAtAccept ClosedAfterHandshake NotOverBlocking
